@@ -263,6 +263,76 @@ def run(chk):
                               f"ranking {list(map(int, mdl.all_sensors))} vs fresh {b.shape}, {list(map(int, fresh.all_sensors))}", case)
         except Exception as e:
             chk.violation("impl", "refit-raises", f"SVD({kreq}) refit on enough examples raised {type(e).__name__}: {e}", case)
+    # ---- histories that change the ranking or the basis WITHOUT a plain fit(x): the documented prefit workflow (basis object fitted by
+    #      the user, model.fit(prefit_basis=True)) and an optimizer reconfigured by set_params and re-ranked by update_n_basis_modes.
+    #      The model is USED (predict / score / reconstruction_error) before the change; afterwards everything observable must be
+    #      what a fresh model with the final settings gives.
+    from pysensors.optimizers import CCQR
+
+    def observe2(mdl, P):
+        sel = [int(i) for i in mdl.selected_sensors]
+        return {"selected": sel, "predict": np.array(impl.quiet(mdl.predict, P[:, sel])), "score": float(impl.quiet(mdl.score, P)),
+                "recon": np.array(impl.quiet(mdl.reconstruction_error, P, sensor_range=np.arange(1, len(sel) + 1)))}
+
+    def same_obs(a, b):
+        return (a["selected"] == b["selected"] and np.allclose(a["predict"], b["predict"], rtol=1e-9, atol=1e-9)
+                and abs(a["score"] - b["score"]) <= 1e-9 * (1 + abs(b["score"])) and np.allclose(a["recon"], b["recon"], rtol=1e-9, atol=1e-9))
+    for it in range(60 if thorough else 16):
+        w = int(rng.integers(4, 9))
+        rows = int(rng.integers(w, w + 4))
+        bk = ["Identity", "SVD", "RandomProjection"][int(rng.integers(0, 3))]
+        k = int(rng.integers(2, min(w, rows)))
+        X1 = rng.integers(-24, 25, size=(rows, w)) / 8.0
+        X2 = rng.integers(-24, 25, size=(rows, w)) / 8.0
+        P = rng.integers(-24, 25, size=(3, w)) / 8.0
+        ns = k if rng.random() < 0.6 else int(rng.integers(1, w + 1))      # the square solve (as many sensors as modes) and the others
+        bcfg = {"kind": bk, "n_basis_modes": k}
+        if it % 2 == 1:
+            ns = min(ns, k)       # update_n_basis_modes cannot be given a seed: only the leading k sensors are determined
+        if it % 2 == 0:
+            case = {"scenario": "prefit workflow: basis.fit(x1); fit(prefit); use; basis.fit(x2); fit(prefit)", "basis": bcfg, "n_sensors": ns, "X1": X1.tolist(), "X2": X2.tolist()}
+            try:
+                basis = impl.make_basis(bcfg)
+                impl.quiet(basis.fit, X1)
+                mdl = SSPOR(basis=basis, n_sensors=ns)
+                impl.quiet(mdl.fit, X1, prefit_basis=True, quiet=True, seed=7)
+                observe2(mdl, P)
+                impl.quiet(basis.fit, X2)
+                impl.quiet(mdl.fit, X2, prefit_basis=True, quiet=True, seed=7)
+                got = observe2(mdl, P)
+                fb = impl.make_basis(bcfg)
+                impl.quiet(fb.fit, X2)
+                fresh = SSPOR(basis=fb, n_sensors=ns)
+                impl.quiet(fresh.fit, X2, prefit_basis=True, quiet=True, seed=7)
+                exp = observe2(fresh, P)
+            except Exception as e:
+                chk.count("prefit-scenario-rejected:" + type(e).__name__)
+                continue
+        else:
+            c1 = (rng.integers(0, 9, size=w) / 2.0)
+            c2 = (rng.integers(0, 9, size=w) / 2.0)[::-1].copy() + np.arange(w) * 0.75
+            case = {"scenario": "fit; use; set_params(optimizer__sensor_costs=c2); update_n_basis_modes(k)", "basis": bcfg, "n_sensors": ns,
+                    "X1": X1.tolist(), "costs1": c1.tolist(), "costs2": c2.tolist()}
+            try:
+                mdl = SSPOR(basis=impl.make_basis(bcfg), optimizer=CCQR(sensor_costs=c1.copy()), n_sensors=ns)
+                impl.quiet(mdl.fit, X1, quiet=True, seed=7)
+                observe2(mdl, P)
+                mdl.set_params(optimizer__sensor_costs=c2.copy())
+                impl.quiet(mdl.update_n_basis_modes, k, quiet=True)
+                got = observe2(mdl, P)
+                fresh = SSPOR(basis=impl.make_basis(bcfg), optimizer=CCQR(sensor_costs=c2.copy()), n_sensors=ns)
+                impl.quiet(fresh.fit, X1, quiet=True, seed=7)
+                exp = observe2(fresh, P)
+                if list(map(int, mdl.ranked_sensors_[:k])) != list(map(int, fresh.ranked_sensors_[:k])):
+                    chk.count("leading-ranking-differs(seedless update)")
+            except Exception as e:
+                chk.count("reconfigure-scenario-rejected:" + type(e).__name__)
+                continue
+        chk.case(case)
+        chk.count("scenario:" + case["scenario"].split(":")[0].split(";")[0])
+        if not same_obs(got, exp):
+            chk.violation("impl", "refit-differs-from-fresh", f"{case['scenario']}: selected {got['selected']} / score {got['score']:.6g} vs a fresh model with the final "
+                          f"settings: {exp['selected']} / {exp['score']:.6g} (predictions equal: {np.allclose(got['predict'], exp['predict'])})", case)
     return chk.finish(TRUSTED, "make -C coq && coqc theories/Properties/C15.v && coqc cases_*.v (vm_compute)")
 
 
